@@ -338,7 +338,57 @@ def ws_control_variants(t: str, k_max: int = 2):
     return out
 
 
-T_CTX = [dict(c=c, d=True, xs=xs, v=1) for c in (True, False) for xs in ([], [1], [1, 2])]
+T_CTX = [dict(c=c, d=True, xs=xs, v=1, s=" ", e="") for c in (True, False) for xs in ([], [1], [1, 2])]
+
+# ---- token-spanning family: word fragments and expressions that render a fragment, a space
+# or nothing, with NO separating whitespace, so that one lexed token spans 2..4 template slices
+# (also at source offset 0) and literal whitespace abuts templated whitespace.
+SPAN_ITEMS = ["a", "b_", " ", ",", "{{ v }}", "{{ s }}", "{{ e }}", "{# c #}"]
+SPAN_CTX = dict(v=1, s=" ", e="", c=True, d=True, xs=[1, 2])
+
+
+def span_templates(n: int = 4):
+    out = set()
+    for k in range(1, n + 1):
+        for tup in itertools.product(SPAN_ITEMS, repeat=k):
+            s = "".join(tup)
+            if has_markup(s):
+                out.add(s)
+    return sorted(out, key=lambda s: (len(s), s))
+
+
+# ---- nested family (depth 2): an if / elif / for nested inside the body of an outer if / for,
+# optionally followed by more conditional code -- the shape that yields variants whose path skips
+# a nested tag.
+def nested_templates(full: bool = False):
+    lits = ["a", " b"]
+    inner_items = list(lits) + ["{{ v }}"]
+    for x in lits:
+        inner_items.append("{% if d %}" + x + "{% endif %}")
+        inner_items.append("{% if 3 == 4 %}" + x + "{% endif %}")
+        inner_items.append("{% for y in xs %}" + x + "{% endfor %}")
+    for x, y in itertools.product(lits, repeat=2):
+        inner_items.append("{% if d %}" + x + "{% else %}" + y + "{% endif %}")
+        inner_items.append("{% if c %}" + x + "{% elif d %}" + y + "{% endif %}")
+    blocks = set(inner_items)
+    for a, b in itertools.product(inner_items, repeat=2):
+        if has_markup(a) or has_markup(b):
+            blocks.add(a + b)
+    blocks = sorted(b for b in blocks if "{%" in b)
+    outers = []
+    for b in blocks:
+        outers.append("{% if c %}" + b + "{% endif %}")
+        outers.append("{% for x in xs %}" + b + "{% endfor %}")
+        for y in lits:
+            outers.append("{% if c %}" + b + "{% else %}" + y + "{% endif %}")
+    tails = ["", "z", "{% if d %}z{% endif %}", "{% if 1 == 2 %}z{% else %}w{% endif %}"]
+    if full:
+        tails += ["{% if c %}z{% else %}w{% endif %}", "{% for y in xs %}z{% endfor %}"]
+    out = set()
+    for o in outers:
+        for t in tails:
+            out.add(o + t)
+    return sorted(out, key=lambda s: (len(s), s))
 
 
 def has_markup(t: str) -> bool:
